@@ -1,5 +1,6 @@
 import Bxh.Props.C07
 import Bxh.Proofs.ExecFrame
+import Bxh.Proofs.ExecBlock
 /-!
 # C02 — IBTPs are accepted in index order, exactly once per ordered service pair
 Theorems about `Bxh.Exec` (model of `InterchainManager.HandleIBTP`, `checkIBTP`, `ProcessIBTP` and
@@ -315,5 +316,101 @@ example :
     let env : Env := { cfg := {}, cache := [], height := 7, txIndex := 0 }
     let rq (n : Nat) : Ibtp := { frm := some s11, to := some s21, index := n, typ := .interchain, timeout := 0, group := none }
     acceptedReqs env s11 s21 l [rq 1, rq 1, rq 3, rq 2] = [1, 2] := by decide
+
+-- ------------------------------------------------------------------------------------ block level
+theorem orderedDst_env {env env' : Env} {l : Led} {d : SvcId} (hc : env'.cache = env.cache) (hb : env'.cfg.bxh = env.cfg.bxh)
+    (h : OrderedDst env l d) : OrderedDst env' l d := by
+  obtain ⟨h1, h2, h3, h4⟩ := h
+  exact ⟨by unfold isLocal at *; rw [hb]; exact h1, h2, by rw [hc]; exact h3, h4⟩
+
+theorem applyBvm_ic_frame {env : Env} {l : Led} {c m : String} {args : List Arg} {r : Led × String}
+    (e : applyBvm env l c m args = .ok r) (hnd : ¬ (c = "interchain" ∧ m = "DeleteInterchain")) (x : SvcId) :
+    r.1.getS (.ic x) = l.getS (.ic x) := by
+  unfold applyBvm at e
+  split at e
+  · rename_i hc
+    exfalso; apply hnd
+    simp only [Bool.and_eq_true, beq_iff_eq] at hc
+    exact hc
+  · split at e
+    · split at e
+      · split at e
+        · cases e; rfl
+        · cases e
+      · cases e
+    · split at e
+      · split at e
+        · split at e
+          · cases e; rfl
+          · cases e
+        · cases e
+      · split at e
+        · split at e <;> cases e
+        · cases e
+
+/-- **one transaction of a block and the request counter of an index-checked pair**: whatever the transaction is (IBTP of this or
+another pair, transfer, contract call; valid or not; fee paid or not, in which case everything is reverted), the counter of
+the pair (s, d) either stays or grows by exactly one — and it grows only by a request of that very pair that carries exactly
+the next index.  Excluded: a direct `DeleteInterchain` call, which resets the counters (the recorded C17 finding). -/
+theorem C02_tx_counter_step (env : Env) (l : Led) (tx : Tx) (inv : Option String) (s d : SvcId)
+    (hd : OrderedDst env l d) (hnd : ∀ sg args, tx ≠ .bvm sg "interchain" "DeleteInterchain" args) :
+    reqCounter (applyTx env l tx inv).1 s d = reqCounter l s d ∨
+    (reqCounter (applyTx env l tx inv).1 s d = reqCounter l s d + 1 ∧
+      ∃ sg i p, tx = .ibtp sg i p ∧ i.typ.isRequest = true ∧ i.frm = some s ∧ i.to = some d ∧ i.index = reqCounter l s d + 1) := by
+  have hd0 : OrderedDst env (txStart l) d := by
+    obtain ⟨h1, h2, h3, h4⟩ := hd
+    exact ⟨h1, h2, h3, fun sv hs => h4 sv hs⟩
+  have hc0 : reqCounter (txStart l) s d = reqCounter l s d := reqCounter_congr (fun x => txStart_getS l _) s d
+  cases applyTx_effect env l tx inv with
+  | nothing h => left; rw [reqCounter_congr (fun x => h _) s d, hc0]
+  | bvm sg c m args r h1 h2 h3 =>
+    left
+    have hn : ¬ (c = "interchain" ∧ m = "DeleteInterchain") := by
+      rintro ⟨rfl, rfl⟩; exact hnd sg args h1
+    rw [reqCounter_congr (fun x => h3 _) s d, reqCounter_congr (fun x => applyBvm_ic_frame h2 hn x) s d, hc0]
+  | ibtp sg i p env' r h1 h2 h3 _ h5 h6 =>
+    obtain ⟨ck, hck⟩ := handleIBTP_ok_checked h5
+    obtain ⟨hfrm, hto⟩ := checkIBTP_ends hck
+    have hcnt := handleIBTP_reqCounter hck h5 s d
+    rw [reqCounter_congr (fun x => h6 _) s d, hcnt, hc0]
+    by_cases hmine : i.typ.isRequest = true ∧ s = ck.src ∧ d = ck.dst
+    · right
+      rw [if_pos hmine]
+      obtain ⟨hreq, hs, hdd⟩ := hmine
+      have hnb : ck.isBatch = false := orderedDst_not_batch (by rw [← hdd]; exact orderedDst_env h2 h3 hd0) hck hreq
+      have hidx := C02_accept_needs_next_index env' (txStart l) i ck hck hreq hnb
+      refine ⟨rfl, sg, i, p, h1, hreq, by rw [hfrm, hs], by rw [hto, hdd], ?_⟩
+      rw [hidx, ← hc0]
+      unfold reqCounter
+      rw [hs, hdd]
+    · left; rw [if_neg hmine]
+
+/-- the timeout bookkeeping and the timeout step of a block leave every interchain counter alone -/
+theorem C02_timeout_steps_keep_counters (cfg : Cfg) (l : Led) (h : Nat) (txs : List Tx) (rcpts : List Rcpt) (s d : SvcId) :
+    reqCounter (setTimeoutRollback (setTimeoutList cfg l h txs rcpts) h) s d = reqCounter l s d := by
+  have h1 : ∀ x, (setTimeoutRollback (setTimeoutList cfg l h txs rcpts) h).getS (.ic x) = l.getS (.ic x) := by
+    intro x
+    have hr : ∀ (l0 : Led), (setTimeoutRollback l0 h).getS (.ic x) = l0.getS (.ic x) := by
+      intro l0
+      unfold setTimeoutRollback
+      have key : ∀ (ids : List TId) (acc : Led × Bool), (ids.foldl (rollbackStep h) acc).1.getS (.ic x) = acc.1.getS (.ic x) := by
+        intro ids
+        induction ids with
+        | nil => intro acc; rfl
+        | cons id rest ih =>
+          intro acc
+          simp only [List.foldl_cons]
+          rw [ih]
+          unfold rollbackStep
+          split
+          · rfl
+          · split
+            · split
+              · simp
+              · rfl
+            · simp
+      exact key _ _
+    rw [hr, setTimeoutList_getS _ _ _ _ _ _ (by intro y e; cases e)]
+  exact reqCounter_congr h1 s d
 
 end Bxh.Props.C02
